@@ -266,7 +266,7 @@ def workload(ctx, lentil):
     F = lentil.field
     E = lentil.extent
     Field = F.Field
-    n = 220 if ctx.tier == 'quick' else 1500
+    n = ctx.count(220, 1500)
     R = 12
 
     def roff(scale=R):
